@@ -65,7 +65,7 @@ func c13AgentsTopo(r *verifkit.R, ci int, t fmTopo) {
 		}
 	}
 	r.Eval(t.Name, far > 0)
-	if vio == 0 {
+	if r.NeedSample() {
 		r.Sample(map[string]any{"topology": t.Name, "entries_head": rows})
 	}
 }
